@@ -17,7 +17,13 @@ generated program coq/theories/Gen/SingletonProg.v) and REAL Python threads runn
 * `--worker <side.json>`: JSON jobs on stdin -> JSON results on stdout (the caller chooses the
   sqlparse to test through PYTHONPATH: /repo, or a temporary patched copy).
 * variants: `make_variant(kind)` copies the sqlparse package of VERIF_REPO to a temp dir and patches
-  `get_default_instance` (nolock / early_release / dcl); used to test the search + replay.
+  `get_default_instance` (publish-first shape: nolock / early_release / dcl / same; publish-last shape:
+  nolock_new / publish_early_new / same_new); used to test the search + replay.  The variants are whole
+  function bodies, so they do not depend on which shape the library currently has.
+* instruction set: see coq/theories/Sys/Singleton.v.  `INewLocal` (a local variable is assigned `cls()`) and
+  `IPublishSelf` (the shared variable is assigned the local) are ordinary sites of the side file: the real
+  thread is parked before the source line of the assignment like before any other statement; the call line
+  `<local>.default_initialization()` touches no shared state and is not a site.
 """
 import ast
 import collections
@@ -94,9 +100,17 @@ class PyModel:
             return setth((pc + 1, slf, ret), inst=len(heap), heap=heap + ((False, False, ()),))
         if op == 'ILoadSelf':
             return setth((pc + 1, inst, ret))
+        if op == 'INewLocal':          # <local> = cls(): allocated, NOT published; the local is the receiver
+            return setth((pc + 1, len(heap), ret), heap=heap + ((False, False, ()),))
+        if op == 'IPublishSelf':       # cls._default_instance = <local>
+            if slf is None:
+                return setth((end, slf, ret))
+            return setth((pc + 1, slf, ret), inst=slf)
         if op == 'IReturn':
             return setth((end, slf, inst))
         # object instructions
+        if op not in ('IClear', 'ISetRegex', 'IAddKw'):
+            raise ValueError(op)
         if slf is None or slf >= len(heap):
             return setth((end, slf, ret))
         c, r, k = heap[slf]
@@ -532,7 +546,34 @@ VARIANT_BODIES = {
         '            cls._default_instance.default_initialization()',
         'return cls._default_instance',
     ],
-    # control: the original body re-typed (must still satisfy well_locked, and no violation)
+    # ---- the publish-last shape (instance built in a local, published when complete)
+    # control: must satisfy well_locked (shape publish-last), and no violation
+    'same_new': [
+        'with cls._lock:',
+        '    if cls._default_instance is None:',
+        '        instance = cls()',
+        '        instance.default_initialization()',
+        '        cls._default_instance = instance',
+        'return cls._default_instance',
+    ],
+    # no lock: nobody ever sees a half-built lexer, but two threads can each build and publish one
+    'nolock_new': [
+        'if cls._default_instance is None:',
+        '    instance = cls()',
+        '    instance.default_initialization()',
+        '    cls._default_instance = instance',
+        'return cls._default_instance',
+    ],
+    # the local is published before it is initialised (same defect as the publish-first shape, with a local)
+    'publish_early_new': [
+        'with cls._lock:',
+        '    if cls._default_instance is None:',
+        '        instance = cls()',
+        '        cls._default_instance = instance',
+        '        instance.default_initialization()',
+        'return cls._default_instance',
+    ],
+    # control: the publish-first body re-typed (must still satisfy well_locked, and no violation)
     'same': [
         'with cls._lock:',
         '    if cls._default_instance is None:',
@@ -688,7 +729,7 @@ def search_and_replay(side, side_path, repo, max_threads=3):
     return out
 
 
-def variant_selftest(kinds=('nolock', 'early_release', 'dcl', 'same'), nrandom=150, seed=0):
+def variant_selftest(kinds=('nolock', 'early_release', 'dcl', 'same', 'nolock_new', 'same_new'), nrandom=150, seed=0):
     """translator + model + real-thread replay on patched temp copies of lexer.py."""
     import vlib
     rng = random.Random(seed)
@@ -703,7 +744,7 @@ def variant_selftest(kinds=('nolock', 'early_release', 'dcl', 'same'), nrandom=1
             sp = os.path.join(tmp, 'side.json')
             with open(sp, 'w') as f:
                 json.dump(side, f)
-            wl = vlib.run_model(['welllocked ' + prog_arg(side)])[0]
+            wl, shp = vlib.run_model(['welllocked ' + prog_arg(side), 'progshape ' + prog_arg(side)])
             pm = PyModel(side['prog'], list(range(len(side['kwnames']))))
             jobs = []
             for n in (2, 2, 3, 4):
@@ -711,7 +752,8 @@ def variant_selftest(kinds=('nolock', 'early_release', 'dcl', 'same'), nrandom=1
                     jobs.append((n, pm.random_schedule(n, rng, noop_share=0.15)))
             dis, stats, real = compare(side, jobs, side_path=sp, repo=tmp)
             sr = search_and_replay(side, sp, tmp)
-            report[kind] = {'prog': side['prog'], 'well_locked': wl, 'correspondence_disagreements': dis[:3],
+            report[kind] = {'prog': side['prog'], 'well_locked': wl, 'shape': shp,
+                            'publishes_before_init': side.get('publishes_before_init'), 'correspondence_disagreements': dis[:3],
                             'ndis': len(dis), 'stats': dict(stats),
                             'random_schedules_with_real_failure': len(property_failures(jobs, real)),
                             'search': sr}
